@@ -62,10 +62,26 @@ REQUIRED_THEOREMS = [
     "M1LSeq.raise_is_legit_seq",
     "M1LSeq.clean_call_returns_seq",
     "M1LSeq.stale_dispatch_new_counterexample",
+    "M1LU.reachable_lockInv",
+    "M1LU.mutex",
+    "M1LU.no_deadlock",
+    "M1LU.timeout_raises",
+    "M1LU.timeout_registers",
+    "M1LU.timeout_only_when_waited",
+    "M1LU.timeout_registered_raises_ordered",
+    "M1LU.timeout_path_ordered",
+    "M1LU.timeout_registered_raises_unordered",
+    "M1LU.timeout_path_unordered",
+    "M1LU.error_jobs_hold_exceptions",
+    "M1LU.registration_once",
+    "M1LU.timeout_branch_guarded",
+    "M1LU.error_surfaces_unordered",
+    "M1LU.aborting_has_error_job",
 ]
-EXTRA_LEAN_MODULES = ("JoblibProofs.M1L", "JoblibProofs.M1LSeq",)
+EXTRA_LEAN_MODULES = ("JoblibProofs.M1L", "JoblibProofs.M1LSeq", "JoblibProofs.M1LU",)
 EXTRA_LEAN_TARGETS = ("drv_m1l", "drv_m1lseq", "drv_m1lu",)
 TRUSTED_EXTRA = [
+    "M1LU (lean/JoblibModel/ParallelLockU.lean, theorems M1LU.*): the model M1L extended at the SAME granularity to return_as='generator_unordered' and to timeout (fake clock: one tick per time.sleep of the retrieval loop; time.time() is not a scheduling point): _jobs_set, the control-job pick under the lock, get_status with a timeout, _register_outcome(TimeoutError) run by the caller without the lock, the unlocked write of _jobs_set in finally; one call on a fresh object; next(iter(_jobs_set)) picks an arbitrary element: the model takes the pick from a script, the harness installs an insertion-ordered set that follows the same script (so every pick can be forced; the theorems hold for all scripts); tied by step-log equality of forced real-thread schedules (harness/m1_lock.py, scenarios with ra=2 or a timeout -> drv_m1lu); proved for all interleavings: mutex / lock owner, pulls only by the lock owner, no deadlock, completion(=registration)-order delivery, timeout only after more than `timeout` ticks on one pending tracker, _raise_error_fast finds the failed job; NOT proved for M1LU (checked by the tie's oracles): item-level exactly-once / all-n-at-exhaustion (M1L's dispatch-side proofs were not ported), termination (the trace-level 'registered TimeoutError => the call raises' IS proved: M1LU.timeout_registered_raises_ordered / _unordered)",
     "M1L-Seq (lean/JoblibModel/ParallelLockSeq.lean, theorems M1LSeq.*): sequences of calls on one object at M1L granularity; between two calls the caller thread does nothing but return/raise and call again (one atomic step up to the lock of _reset_run_tracking); uuid4 call ids are pairwise distinct (modelled by a counter); the backend keeps calling back for batches of earlier calls from threads it does not join (worst case); termination of sequences is checked, not proved",
     "M1L (lean/JoblibModel/ParallelLock.lean, theorems M1L.*): a second, small-step, multi-threaded model of the same protocol; one atomic step = the code of one thread between two scheduling points (outermost acquire/release of Parallel._lock, a backend call, time.sleep, an unlocked access to _aborting/_exception/_iterating/_original_iterator/n_dispatched_tasks/n_completed_tasks/_jobs/tracker status), any number of callback threads, every interleaving; scope: one call on a fresh object, ordered modes, no timeout; tied to the code by step-log equality of forced real-thread schedules (instrumented lock, controllable backend, descriptor-instrumented shared attributes, no line numbers); assumed: threading.RLock mutual exclusion, atomicity of a single attribute load/store under the GIL; accesses to attributes outside the list and the input iterator's __next__ are atomic with their segment; termination under the drain schedule (completions, then callbacks, then the caller) is PROVED from every reachable state with an explicit bound (quiescent_termination*, measure 1300*W+100*P+100*L+R); termination under other fair schedules is not stated",
     "start-up faults (lean/JoblibModel/ParallelStartup.lean, F52): one statement of Parallel._start_call raises per faulted call (len(iterable), "
